@@ -10,6 +10,7 @@ mod proxy;
 mod rt;
 mod sendloop;
 mod settings;
+mod tlsx;
 mod transport;
 mod util;
 
@@ -139,6 +140,7 @@ fn run_all(kind: &str, input: &str, outdir: &str, threads: usize, budget: Durati
                             "settings" => settings::run(&sc),
                             "rt" => rt::run(&sc),
                             "happy" => happy::run(&sc),
+                            "tls" => tlsx::run(&sc),
                             "charset" => {
                                 if util::gs(&sc, "kind") == "charset" {
                                     let thorough = std::env::var("VERIF_TIER").map(|t| t == "thorough").unwrap_or(false);
